@@ -231,4 +231,179 @@ theorem sideRun_ok (k : Kind) (hk : k.slot0 = true → k.skipEmpty = true) :
     exact ⟨(sideStep_ok k hk s op).1, ih _⟩
 
 
+/-! ### TRACE `current_Ks`: growing in place -/
+
+/-- backward loop invariant: sources `p ≥ k` have been moved to `p + p/n`, cells below `d` are untouched -/
+structure GInv {α : Type} (n : Nat) (ks ks' : List α) (k d : Nat) : Prop where
+  len : ks'.length = ks.length
+  low : ∀ q, q < d → ks'[q]? = ks[q]?
+  done : ∀ p, k ≤ p → p < n * n → ks'[p + p / n]? = ks[p]?
+
+theorem grow_step {α : Type} (n i c : Nat) (ks ks' : List α) (hlen : ks.length = (n + 1) * (n + 1))
+    (hi : i < n) (hc : c < n) (h : GInv n ks ks' (i * n + (c + 1)) (i * n + (c + 1) + i)) :
+    ∃ ks'', copyCell ks' (i * n + c + i) (i * n + c) = some ks'' ∧ GInv n ks ks'' (i * n + c) (i * n + c + i) := by
+  have hsrc_lt : i * n + c < ks.length := by rw [hlen]; nlinarith
+  have hdst_lt : i * n + c + i < ks'.length := by rw [h.len, hlen]; nlinarith
+  have hrd : ks'[i * n + c]? = ks[i * n + c]? := h.low _ (by omega)
+  obtain ⟨x, hx⟩ : ∃ x, ks[i * n + c]? = some x := ⟨ks[i * n + c], List.getElem?_eq_getElem hsrc_lt⟩
+  refine ⟨ks'.set (i * n + c + i) x, ?_, ?_⟩
+  · unfold copyCell; rw [hrd, hx]; simp [hdst_lt]
+  · refine ⟨by simp [h.len], ?_, ?_⟩
+    · intro q hq
+      rw [List.getElem?_set, if_neg (by omega)]; exact h.low q (by omega)
+    · intro p hp hpn
+      rw [List.getElem?_set]
+      by_cases hpk : p = i * n + c
+      · subst hpk
+        obtain ⟨d1, _⟩ := flat_div_mod n i c hc
+        rw [d1, if_pos rfl, if_pos hdst_lt]; exact hx.symm
+      · have hp' : i * n + (c + 1) ≤ p := by omega
+        have hdiv : i ≤ p / n := by
+          have : i * n ≤ p := by omega
+          exact (Nat.le_div_iff_mul_le (by omega)).mpr this
+        rw [if_neg (by omega)]; exact h.done p hp' hpn
+
+theorem growRow_spec {α : Type} (n i : Nat) (ks : List α) (hlen : ks.length = (n + 1) * (n + 1)) (hi : i < n) :
+    ∀ (c : Nat) (ks' : List α), c ≤ n → GInv n ks ks' (i * n + c) (i * n + c + i) →
+      ∃ ks'', growRow n i c ks' = some ks'' ∧ GInv n ks ks'' (i * n) (i * n + i) := by
+  intro c
+  induction c with
+  | zero => intro ks' _ h; exact ⟨ks', rfl, by simpa using h⟩
+  | succ c ih =>
+    intro ks' hc h
+    obtain ⟨k1, e1, inv1⟩ := grow_step n i c ks ks' hlen hi (by omega) h
+    obtain ⟨k2, e2, inv2⟩ := ih k1 (by omega) inv1
+    exact ⟨k2, by simp only [growRow, e1]; exact e2, inv2⟩
+
+theorem growRows_spec {α : Type} (n : Nat) (ks : List α) (hlen : ks.length = (n + 1) * (n + 1)) :
+    ∀ (r : Nat) (ks' : List α), r ≤ n → GInv n ks ks' (r * n) (r * n + r) →
+      ∃ ks'', growRows n r ks' = some ks'' ∧ GInv n ks ks'' 0 0 := by
+  intro r
+  induction r with
+  | zero => intro ks' _ h; exact ⟨ks', rfl, by simpa using h⟩
+  | succ r ih =>
+    intro ks' hr h
+    -- row r: sources r*n + c for c = n-1 … 0; the invariant with the (weaker) bound d = k + r
+    have h' : GInv n ks ks' (r * n + n) (r * n + n + r) := by
+      refine ⟨h.len, fun q hq => h.low q (by nlinarith), fun p hp hpn => h.done p (by nlinarith) hpn⟩
+    obtain ⟨k1, e1, inv1⟩ := growRow_spec n r ks hlen (by omega) n ks' (by omega) h'
+    obtain ⟨k2, e2, inv2⟩ := ih k1 (by omega) inv1
+    exact ⟨k2, by simp only [growRows, e1]; exact e2, inv2⟩
+
+/-- the backward loop moves the old n×n block to the positions it has in the (n+1)×(n+1) matrix, in place, for every n -/
+theorem growRows_block {α : Type} (n : Nat) (ks : List α) (hlen : ks.length = (n + 1) * (n + 1)) :
+    ∃ out, growRows n n ks = some out ∧ out.length = ks.length ∧
+      ∀ i j, i < n → j < n → out[i * (n + 1) + j]? = ks[i * n + j]? := by
+  obtain ⟨out, e, inv⟩ := growRows_spec n ks hlen n ks (by omega)
+    ⟨rfl, fun _ _ => rfl, fun p hp hpn => by nlinarith⟩
+  refine ⟨out, e, inv.len, ?_⟩
+  intro i j hi hj
+  have hp : i * n + j < n * n := by nlinarith
+  have := inv.done (i * n + j) (by omega) hp
+  obtain ⟨d1, _⟩ := flat_div_mod n i j hj
+  rw [d1] at this
+  have e2 : i * (n + 1) + j = i * n + j + i := by ring
+  rw [e2]; exact this
+
+/-! writing a list of cells -/
+
+theorem setCells_spec {α : Type} (v : α) : ∀ (cells : List Nat) (ks : List α), (∀ k ∈ cells, k < ks.length) →
+    ∃ out, setCells v cells ks = some out ∧ out.length = ks.length ∧
+      ∀ q, out[q]? = if q ∈ cells then (if q < ks.length then some v else none) else ks[q]? := by
+  intro cells
+  induction cells with
+  | nil => intro ks _; exact ⟨ks, rfl, rfl, by simp⟩
+  | cons k rest ih =>
+    intro ks h
+    have hk : k < ks.length := h k (by simp)
+    obtain ⟨out, e, hl, hq⟩ := ih (ks.set k v) (by intro x hx; simp; exact h x (by simp [hx]))
+    refine ⟨out, by simp only [setCells, setCell, if_pos hk]; exact e, by simpa using hl, ?_⟩
+    intro q
+    rw [hq q]
+    by_cases hqr : q ∈ rest
+    · simp [hqr]
+    · simp only [hqr, if_false, List.mem_cons, or_false]
+      rw [List.getElem?_set]
+      by_cases hqk : q = k
+      · subst hqk; simp [hk]
+      · rw [if_neg (Ne.symm hqk), if_neg hqk]
+
+theorem cell_ne_col (n i j i' : Nat) (hj : j < n) : i * (n + 1) + j ≠ i' * (n + 1) + n := by
+  intro h
+  rcases Nat.lt_trichotomy i i' with hlt | heq | hgt
+  · have : (i + 1) * (n + 1) ≤ i' * (n + 1) := Nat.mul_le_mul_right _ hlt
+    nlinarith
+  · subst heq; omega
+  · have : (i' + 1) * (n + 1) ≤ i * (n + 1) := Nat.mul_le_mul_right _ hgt
+    nlinarith
+
+theorem col_inj (n i i' : Nat) (h : i * (n + 1) + n = i' * (n + 1) + n) : i = i' := by
+  have : i * (n + 1) = i' * (n + 1) := by omega
+  exact Nat.eq_of_mul_eq_mul_right (by omega) this
+
+/-- TRACE, adding a particle during a step: the old block is kept (both variants), the new particle's pair with every member of
+    the encounter is flagged; with the repair (`clear`) every other cell of the new column is 0 -/
+theorem ksAdd_spec {α : Type} (clear : Bool) (n : Nat) (enc : List Nat) (zero one : α) (ks : List α)
+    (hlen : ks.length = (n + 1) * (n + 1)) (henc : ∀ i ∈ enc, i < n) :
+    ∃ out, ksAdd clear n enc zero one ks = some out ∧
+      (∀ i j, i < n → j < n → out[i * (n + 1) + j]? = ks[i * n + j]?) ∧
+      (∀ i, i ∈ enc → out[i * (n + 1) + n]? = some one) ∧
+      (clear = true → ∀ i, i < n → i ∉ enc → out[i * (n + 1) + n]? = some zero) := by
+  obtain ⟨k1, e1, l1, b1⟩ := growRows_block n ks hlen
+  -- the (optional) clearing of the new row and column
+  let cl := (List.range (n + 1)).map (fun i => i * (n + 1) + n) ++ (List.range (n + 1)).map (fun i => n * (n + 1) + i)
+  have hcl : ∀ k ∈ cl, k < k1.length := by
+    intro k hk
+    rw [l1, hlen]
+    rcases List.mem_append.mp hk with h | h
+    · obtain ⟨i, hi, rfl⟩ := List.mem_map.mp h
+      have := List.mem_range.mp hi; nlinarith
+    · obtain ⟨i, hi, rfl⟩ := List.mem_map.mp h
+      have := List.mem_range.mp hi; nlinarith
+  have hblock_notin_cl : ∀ i j, i < n → j < n → i * (n + 1) + j ∉ cl := by
+    intro i j hi hj hm
+    rcases List.mem_append.mp hm with h | h
+    · obtain ⟨i', _, e⟩ := List.mem_map.mp h
+      exact cell_ne_col n i j i' hj e.symm
+    · obtain ⟨i', hi', e⟩ := List.mem_map.mp h
+      have := List.mem_range.mp hi'
+      have : (i + 1) * (n + 1) ≤ n * (n + 1) := Nat.mul_le_mul_right _ hi
+      nlinarith
+  obtain ⟨k2, e2, l2, b2, c2⟩ : ∃ k2, (if clear then setCells zero cl k1 else some k1) = some k2 ∧ k2.length = k1.length ∧
+      (∀ i j, i < n → j < n → k2[i * (n + 1) + j]? = k1[i * (n + 1) + j]?) ∧
+      (clear = true → ∀ i, i < n → k2[i * (n + 1) + n]? = some zero) := by
+    cases clear
+    · exact ⟨k1, rfl, rfl, fun _ _ _ _ => rfl, fun h => by cases h⟩
+    · obtain ⟨k2, e, l, q⟩ := setCells_spec zero cl k1 hcl
+      refine ⟨k2, e, l, ?_, ?_⟩
+      · intro i j hi hj; rw [q, if_neg (hblock_notin_cl i j hi hj)]
+      · intro _ i hi
+        have hm : i * (n + 1) + n ∈ cl := List.mem_append_left _ (List.mem_map.mpr ⟨i, List.mem_range.mpr (by omega), rfl⟩)
+        rw [q, if_pos hm, if_pos (hcl _ hm)]
+  let col := enc.map fun i => i * (n + 1) + n
+  have hcol : ∀ k ∈ col, k < k2.length := by
+    intro k hk
+    obtain ⟨i, hi, rfl⟩ := List.mem_map.mp hk
+    have := henc i hi
+    rw [l2, l1, hlen]; nlinarith
+  obtain ⟨out, e3, l3, q3⟩ := setCells_spec one col k2 hcol
+  refine ⟨out, ?_, ?_, ?_, ?_⟩
+  · unfold ksAdd; rw [e1]; simp only []; rw [e2]; exact e3
+  · intro i j hi hj
+    have hn : i * (n + 1) + j ∉ col := by
+      intro hm
+      obtain ⟨i', _, e⟩ := List.mem_map.mp hm
+      exact cell_ne_col n i j i' hj e.symm
+    rw [q3, if_neg hn, b2 i j hi hj, b1 i j hi hj]
+  · intro i hi
+    have hm : i * (n + 1) + n ∈ col := List.mem_map.mpr ⟨i, hi, rfl⟩
+    rw [q3, if_pos hm, if_pos (hcol _ hm)]
+  · intro hc i hi hni
+    have hn : i * (n + 1) + n ∉ col := by
+      intro hm
+      obtain ⟨i', hi', e⟩ := List.mem_map.mp hm
+      exact hni (by rw [col_inj n i i' e.symm]; exact hi')
+    rw [q3, if_neg hn]; exact c2 hc i hi
+
+
 end RV.Particles.Side
